@@ -193,6 +193,20 @@ def rule_inlet(chk, rel, cls, fn):
         if n.ast is not None and isinstance(n.ast, (ast.Expr, ast.Assign)) and any(e is x for x in ast.walk(n.ast)):
             en = n.id
     sh = [g.node_of(s[3]) for (arr, ax), s in shifts.items() if arr == 'inlet_pa']
+    # whenever particles are copied into the fluid, the originals are recycled along all three axes (the normal need not be parallel to an axis): no test decides whether a
+    # coordinate is shifted
+    miss_ = [ax for (arr, ax), s_ in sorted(shifts.items()) if arr == 'inlet_pa' and (en is None or g.node_of(s_[3]) is None or not g.must_pass(en, g.exit, [g.node_of(s_[3])]))]
+    chk.decide(en is not None and not miss_, 'inlet-move', '%s:%s:recycle-on-every-path' % (fam, who), node=shifts[('inlet_pa', miss_[0])][3] if miss_ else fn, file=rel, func=who,
+               detail_bad='after the copy a path reaches the end of update() without shifting %s of the originals (the shift sits under a test): with a normal that is not parallel to '
+                          'an axis the originals are recycled only part of a zone length and cross the interface again too early' % miss_,
+               detail_ok='x, y and z shifted on every path after the copy')
+    # the fluid array stays aligned: the copy goes through extract_particles' own alignment, the real-particle count of the destination is never set by hand
+    noal = [U(k_.value) for k_ in e.keywords if k_.arg == 'align' and not (isinstance(k_.value, ast.Constant) and k_.value.value is True)]
+    byhand = [c_ for c_ in M.calls(fn) if isinstance(c_.func, ast.Attribute) and c_.func.attr in ('set_num_real_particles',)]
+    chk.decide(not noal and not byhand, 'inlet-move', '%s:%s:fluid-stays-aligned' % (fam, who), node=byhand[0] if byhand else e, file=rel, func=who,
+               detail_bad='the copy is made with align=%s%s: non-Local particles that sit behind the real ones of the fluid array (periodic ghosts) end up counted as real, or the new '
+                          'real particles behind them' % (noal[0] if noal else 'True', ' and the real-particle count is set by hand (%s)' % U(byhand[0]) if byhand else ''),
+               detail_ok='extract_particles aligns the destination; no hand-set real count')
     chk.decide(en is not None and all(x is not None and g.dominates(en, x) for x in sh), 'inlet-move', '%s:%s:copy-before-recycle' % (fam, who), node=fn,
                file=rel, func=who, detail_bad='positions are shifted before the particles are copied into the fluid (the copies would carry the recycled position)',
                detail_ok='copy dominates the shift')
